@@ -174,6 +174,21 @@ def r17_3(run):
                    f"as {'keyword ' + how[1] if how and how[0] == 'kw' else 'positional #' + str(how[1]) if how else '-'}" if ok else
                    (f"parameter {p} never reaches numpy.{name}: the option is silently ignored" if how is None else
                     f"parameter {p} is passed as {how}: crossed with another option"))
+        rebound = set()
+        for x in own_nodes(fi.node):
+            if isinstance(x, ast.Name) and isinstance(x.ctx, (ast.Store, ast.Del)) and x.id in allp and x.id != "constant":
+                stx = getattr(x, "_parent", None)
+                val = norm(stx.value) if isinstance(stx, ast.Assign) and len(stx.targets) == 1 else None
+                p_ = x.id
+                unwrap = (f"_anything_but_tensor({p_})", f"{p_}.data", f"{p_}.data if isinstance({p_}, Tensor) else {p_}")
+                if val in unwrap:
+                    continue  # unwrapping a Tensor to its array keeps dtype and shape
+                rebound.add(p_)
+        rebound = sorted(rebound)
+        run.ob("R17.3", loc(fi, rets[0]), fi.short, "parameters reach NumPy as the caller gave them (none is rebound first)", not rebound,
+               "no parameter is assigned in the body" if not rebound else
+               f"{rebound} rebound before the NumPy call: NumPy's result-type rules see a different object than the caller passed "
+               f"(a 0-d array turned into a Python scalar loses its dtype)")
         d = _defaults(fi.node)
         want = DEFAULTS.get(name)
         if want is None:
